@@ -24,7 +24,7 @@ def mix(z):
 
 
 DEFAULTS = dict(mode="b", n="-", s="-", T=1, min="-", max="-", skip="-", f=PS, p=1, oh="0,0,0,0", ic=0,
-                g=0, c=1, d=0, ja=0, js=0, grow=0, skew=0, off="0", x="", budget=100000)
+                g=0, c=1, d=0, ja=0, js=0, grow=0, skew=0, off="0", x="", budget=60000)
 ORDER = ["mode", "n", "s", "T", "min", "max", "skip", "f", "p", "oh", "ic", "g", "c", "d", "ja", "js", "grow", "skew", "off", "x", "budget"]
 
 
